@@ -31,13 +31,13 @@ macro:max "c!" s:str : term => do
 /-- `html.escape`: `&` first, then `<`, `>`, and (only with `quote=True`) `"` and `'`. Because the
 replacement texts of the later steps contain none of the earlier characters except `&`, which is
 replaced first, the sequential `str.replace` chain equals this character-wise substitution. -/
-def escapeChar (quote : Bool) : Char → Str
-  | '&' => c!"&amp;"
-  | '<' => c!"&lt;"
-  | '>' => c!"&gt;"
-  | '"' => if quote then c!"&quot;" else ['"']
-  | '\'' => if quote then c!"&#x27;" else ['\'']
-  | c => [c]
+def escapeChar (quote : Bool) (c : Char) : Str :=
+  if c = '&' then c!"&amp;"
+  else if c = '<' then c!"&lt;"
+  else if c = '>' then c!"&gt;"
+  else if c = '"' then (if quote then c!"&quot;" else [c])
+  else if c = '\'' then (if quote then c!"&#x27;" else [c])
+  else [c]
 
 def escapeQ (quote : Bool) : Str → Str
   | [] => []
@@ -173,41 +173,68 @@ def spanP (p : Char → Bool) : Str → Str × Str
 /-- Characters allowed inside a double-quoted attribute value. -/
 def isValueChar (c : Char) : Bool := c != '"' && c != '<'
 
-/-- Attributes up to and including the closing `>`: ` name` or ` name="value"`, nothing else. -/
-def lexAttrs : Nat → Str → Option (List Attr × Str)
-  | 0, _ => none
-  | _ + 1, '>' :: r => some ([], r)
-  | f + 1, ' ' :: r =>
-    let (n, r1) := spanP isNameChar r
+/-- One attribute, from an input that starts with a blank: ` name` or ` name="value"`. -/
+def scanAttr : Str → Option (Attr × Str)
+  | [] => none
+  | b :: r =>
+    if b ≠ ' ' then none else
+    let n := (spanP isNameChar r).1
+    let r1 := (spanP isNameChar r).2
     if !validName n then none else
     match r1 with
-    | '=' :: '"' :: r2 =>
-      let (v, r3) := spanP isValueChar r2
-      match r3 with
-      | '"' :: r4 => (lexAttrs f r4).map (fun (as, rr) => (⟨n, some v⟩ :: as, rr))
-      | _ => none
-    | _ => (lexAttrs f r1).map (fun (as, rr) => (⟨n, none⟩ :: as, rr))
-  | _ + 1, _ => none
+    | [] => some (⟨n, none⟩, r1)
+    | e :: r2 =>
+      if e ≠ '=' then some (⟨n, none⟩, r1) else
+      match r2 with
+      | [] => none
+      | q :: r3 =>
+        if q ≠ '"' then none else
+        let v := (spanP isValueChar r3).1
+        match (spanP isValueChar r3).2 with
+        | [] => none
+        | q' :: r5 => if q' ≠ '"' then none else some (⟨n, some v⟩, r5)
+
+/-- Attributes up to and including the closing `>`; nothing else is allowed inside a tag. -/
+def lexAttrs : Nat → Str → Option (List Attr × Str)
+  | 0, _ => none
+  | _ + 1, [] => none
+  | f + 1, c :: r =>
+    if c = '>' then some ([], r) else
+    match scanAttr (c :: r) with
+    | none => none
+    | some (a, r') => (lexAttrs f r').map (fun (as, rr) => (a :: as, rr))
+
+/-- One token from a non-empty input. Text is a maximal run of characters other than `<`; a `<`
+must start `</name>` or `<name attrs>`. -/
+def scanTok : Str → Option (Tok × Str)
+  | [] => none
+  | c :: r =>
+    if c ≠ '<' then
+      some (.text (spanP (fun c => c != '<') (c :: r)).1, (spanP (fun c => c != '<') (c :: r)).2)
+    else
+      match r with
+      | [] => none
+      | d :: r' =>
+        if d = '/' then
+          let n := (spanP isNameChar r').1
+          if !validName n then none else
+          match (spanP isNameChar r').2 with
+          | [] => none
+          | g :: r2 => if g ≠ '>' then none else some (.close n, r2)
+        else
+          let n := (spanP isNameChar (d :: r')).1
+          let r1 := (spanP isNameChar (d :: r')).2
+          if !validName n then none else
+          (lexAttrs (r1.length + 1) r1).map (fun (as, r2) => (.open n as, r2))
 
 /-- The tokenizer; `fuel` bounds the number of tokens (`lex` passes the input length + 1). -/
 def lexF : Nat → Str → Option (List Tok)
   | 0, _ => none
   | _ + 1, [] => some []
-  | f + 1, '<' :: '/' :: r =>
-    let (n, r1) := spanP isNameChar r
-    if !validName n then none else
-    match r1 with
-    | '>' :: r2 => (lexF f r2).map (fun ts => .close n :: ts)
-    | _ => none
-  | f + 1, '<' :: r =>
-    let (n, r1) := spanP isNameChar r
-    if !validName n then none else
-    match lexAttrs (r1.length + 1) r1 with
-    | some (as, r2) => (lexF f r2).map (fun ts => .open n as :: ts)
-    | none => none
   | f + 1, c :: r =>
-    let (t, r1) := spanP (fun c => c != '<') (c :: r)
-    (lexF f r1).map (fun ts => .text t :: ts)
+    match scanTok (c :: r) with
+    | none => none
+    | some (t, r1) => (lexF f r1).map (fun ts => t :: ts)
 
 def lex (s : Str) : Option (List Tok) := lexF (s.length + 1) s
 
@@ -253,6 +280,15 @@ mutual
     | [] => []
     | n :: ns => textsOf n ++ textsOfAll ns
 end
+
+/-! ### specification vocabulary -/
+
+/-- The element names the tree view emits. -/
+def libraryTags : List Str :=
+  [c!"details", c!"summary", c!"div", c!"span", c!"table", c!"tr", c!"td"]
+
+/-- The attribute names the tree view emits (no colours / ids / user css classes in the model). -/
+def libraryAttrs : List Str := [c!"open", c!"class"]
 
 /-! ### (4) the tree view skeleton -/
 
@@ -533,5 +569,33 @@ def displayed (o : Opts) : Tree → Tree
 /-- `pg.to_html_str(value, content_only=True, **opts)`. -/
 def renderTree (st : Sites) (o : Opts) (v : Tree) : Str :=
   render st o.toCtx (o.name.map Key.summaryName) [] (displayed o v)
+
+/-! ### what the property expects to find in the output -/
+
+mutual
+  /-- The texts of all leaves of the rendered tree (what `value_repr` shows for each). -/
+  def leafTextsOf (c : Ctx) : Tree → List Str
+    | .leaf k p kind repr raw tip => [leafText c (.leaf k p kind repr raw tip)]
+    | .node _ _ _ _ children => leafTextsOfAll (childCtx c) children
+  def leafTextsOfAll (c : Ctx) : List Tree → List Str
+    | [] => []
+    | t :: ts => leafTextsOf c t ++ leafTextsOfAll c ts
+end
+
+mutual
+  /-- The key texts of all descendants: `str(key)` under label-style parents, the summary name
+  (`key` or `[index]`) under summary-style parents. With `onlyShown` the summary-style keys of
+  children that get no summary are left out (finding F33). -/
+  def keyTextsOf (onlyShown : Bool) (c : Ctx) : Tree → List Str
+    | .leaf .. => []
+    | .node _ _ kind _ children =>
+      keyTextsOfAll onlyShown c (kind.isSeq || c.keyStyle == .label) children
+  def keyTextsOfAll (onlyShown : Bool) (c : Ctx) (label : Bool) : List Tree → List Str
+    | [] => []
+    | t :: ts =>
+      (if label then [t.key.text]
+       else if !onlyShown || needsSummary (childCtx c) true t then [t.key.summaryName] else [])
+      ++ keyTextsOf onlyShown (childCtx c) t ++ keyTextsOfAll onlyShown c label ts
+end
 
 end Pg.C20
